@@ -152,3 +152,24 @@ func (v V15) MI0()       {}
 
 var vTypes = []reflect.Type{reflect.TypeOf(V0{}), reflect.TypeOf(V1{}), reflect.TypeOf(V2{}), reflect.TypeOf(V3{}), reflect.TypeOf(V4{}), reflect.TypeOf(V5{}), reflect.TypeOf(V6{}), reflect.TypeOf(V7{}), reflect.TypeOf(V8{}), reflect.TypeOf(V9{}), reflect.TypeOf(V10{}), reflect.TypeOf(V11{}), reflect.TypeOf(V12{}), reflect.TypeOf(V13{}), reflect.TypeOf(V14{}), reflect.TypeOf(V15{})}
 var vNew = []func(int64) interface{}{func(s int64) interface{} { return V0{S: s, Live: true} }, func(s int64) interface{} { return V1{S: s, Live: true} }, func(s int64) interface{} { return V2{S: s, Live: true} }, func(s int64) interface{} { return V3{S: s, Live: true} }, func(s int64) interface{} { return V4{S: s, Live: true} }, func(s int64) interface{} { return V5{S: s, Live: true} }, func(s int64) interface{} { return V6{S: s, Live: true} }, func(s int64) interface{} { return V7{S: s, Live: true} }, func(s int64) interface{} { return V8{S: s, Live: true} }, func(s int64) interface{} { return V9{S: s, Live: true} }, func(s int64) interface{} { return V10{S: s, Live: true} }, func(s int64) interface{} { return V11{S: s, Live: true} }, func(s int64) interface{} { return V12{S: s, Live: true} }, func(s int64) interface{} { return V13{S: s, Live: true} }, func(s int64) interface{} { return V14{S: s, Live: true} }, func(s int64) interface{} { return V15{S: s, Live: true} }}
+
+// KT<i> is a second named slice type over *K<i> (no methods): a decorated group
+// may be produced as one named slice type and consumed as another.
+type KT0 []*K0
+type KT1 []*K1
+type KT2 []*K2
+type KT3 []*K3
+type KT4 []*K4
+type KT5 []*K5
+type KT6 []*K6
+type KT7 []*K7
+type KT8 []*K8
+type KT9 []*K9
+type KT10 []*K10
+type KT11 []*K11
+type KT12 []*K12
+type KT13 []*K13
+type KT14 []*K14
+type KT15 []*K15
+
+var ktTypes = []reflect.Type{reflect.TypeOf(KT0(nil)), reflect.TypeOf(KT1(nil)), reflect.TypeOf(KT2(nil)), reflect.TypeOf(KT3(nil)), reflect.TypeOf(KT4(nil)), reflect.TypeOf(KT5(nil)), reflect.TypeOf(KT6(nil)), reflect.TypeOf(KT7(nil)), reflect.TypeOf(KT8(nil)), reflect.TypeOf(KT9(nil)), reflect.TypeOf(KT10(nil)), reflect.TypeOf(KT11(nil)), reflect.TypeOf(KT12(nil)), reflect.TypeOf(KT13(nil)), reflect.TypeOf(KT14(nil)), reflect.TypeOf(KT15(nil))}
